@@ -84,6 +84,7 @@ type Pos struct {
 	InNamedArr      bool           // item of an array that is itself a named definition / the root
 	UnionDeclared   map[string]any // evaluating an allOf / anyOf branch: properties declared by any branch (the generated struct has them all)
 	DefStack        []string       // definitions (file#name) whose evaluation encloses this node: a $ref to one of them is a cycle
+	RefBranch       bool           // inside an allOf / anyOf branch that is a $ref to a definition (the definition's schema is visited a second time by the merge)
 	Path            string
 }
 
@@ -225,6 +226,7 @@ func (m *Model) valid(sn any, v any, p Pos) Verdict {
 		np.Outer = nil
 		np.InNamedArr = false
 		np.ParentNoMethods = false
+		np.RefBranch = p.Kind == "branch"
 		np.DefStack = append(append([]string{}, p.DefStack...), file+"|"+ref[strings.IndexByte(ref+"#", '#'):])
 		if ts, ok := t.(map[string]any); ok && m.dev("REF_UNTYPED_DEF_IS_ANY") && strings.Contains(ref, "#/") {
 			// as built: a $ref to a definition without type and without properties becomes interface{}
@@ -523,6 +525,27 @@ func (m *Model) numeric(s S, v any, p Pos, isInt bool) Verdict {
 		return r
 	}
 	flag := func(key string) bool { b, _ := s[key].(bool); return b }
+	if isInt && m.MinSized && p.RefBranch && m.dev("SIZED_BOUNDS_STRIPPED_FROM_SHARED_SCHEMA") {
+		// as built: --min-sized-ints clears the bounds implied by the chosen Go type *in the schema itself*; when the merge of a
+		// composite list visits the property schema of a $ref'd definition a second time, those bounds are gone: the field of
+		// the merged struct gets a wider type and no check for them
+		_, e1 := s["exclusiveMinimum"]
+		_, e2 := s["exclusiveMaximum"]
+		if !e1 && !e2 {
+			mn, mx := bound("minimum"), bound("maximum")
+			dropMin, dropMax := sizedStrip(mn, mx)
+			if dropMin && x.Cmp(mn) < 0 {
+				m.fire("SIZED_BOUNDS_STRIPPED_FROM_SHARED_SCHEMA")
+			}
+			if dropMax && x.Cmp(mx) > 0 {
+				m.fire("SIZED_BOUNDS_STRIPPED_FROM_SHARED_SCHEMA")
+			}
+			if (!dropMin && mn != nil && x.Cmp(mn) < 0) || (!dropMax && mx != nil && x.Cmp(mx) > 0) {
+				return m.reject(p, "bounds (as built, after stripping)")
+			}
+			return Accept
+		}
+	}
 	if mn := bound("minimum"); mn != nil {
 		c := x.Cmp(mn)
 		if c < 0 || (c == 0 && flag("exclusiveMinimum")) {
@@ -558,6 +581,50 @@ func (m *Model) numeric(s S, v any, p Pos, isInt bool) Verdict {
 		}
 	}
 	return Accept
+}
+
+// sizedStrip: which inclusive bounds --min-sized-ints removes from the schema because the chosen Go type implies them
+// (getMinIntType: unsigned when min >= 0 - then a minimum of exactly 0 is removed -, otherwise the narrowest signed type;
+// a bound equal to the type's own limit is removed).
+func sizedStrip(mn, mx *big.Rat) (dropMin, dropMax bool) {
+	eq := func(r *big.Rat, s string) bool {
+		n, _ := new(big.Int).SetString(s, 10)
+		return r != nil && r.IsInt() && r.Num().Cmp(n) == 0
+	}
+	le := func(r *big.Rat, s string) bool {
+		n, _ := new(big.Int).SetString(s, 10)
+		return r.Cmp(new(big.Rat).SetInt(n)) <= 0
+	}
+	ge := func(r *big.Rat, s string) bool {
+		n, _ := new(big.Int).SetString(s, 10)
+		return r.Cmp(new(big.Rat).SetInt(n)) >= 0
+	}
+	if mn != nil && mn.Sign() >= 0 {
+		dropMin = mn.Sign() == 0
+		if mx == nil {
+			return dropMin, false
+		}
+		for _, lim := range []string{"255", "65535", "4294967295"} {
+			if le(mx, lim) {
+				return dropMin, eq(mx, lim)
+			}
+		}
+		return dropMin, eq(mx, "18446744073709551615")
+	}
+	switch {
+	case mn == nil && mx == nil:
+		return false, false
+	case mn == nil:
+		return false, eq(mx, "9223372036854775807")
+	case mx == nil:
+		return eq(mn, "-9223372036854775808"), false
+	}
+	for _, t := range [][2]string{{"-128", "127"}, {"-32768", "32767"}, {"-2147483648", "2147483647"}} {
+		if ge(mn, t[0]) && le(mx, t[1]) {
+			return eq(mn, t[0]), eq(mx, t[1])
+		}
+	}
+	return eq(mn, "-9223372036854775808"), eq(mx, "9223372036854775807")
 }
 
 func intKey(s S, key string) (int, bool) {
